@@ -46,80 +46,6 @@ var vpItemTable = []vpItemSpec{
 // a tiny reference, the 1.001 reference, a 64-bit byte total, a byte maximum)
 var vpItemOrder = []int{10, 14, 6, 12, 0, 19, 17, 4, 1, 2, 3, 5, 7, 8, 9, 11, 13, 15, 16, 18, 20, 21}
 
-const vpBangs = "!!!!!!!!!!!!!!!!!!!!!!!!!!!!!!"
-
-// VPH_concern: for one item of the real contents() (chosen by a fork), with
-// every counter of the HistorySize free and a free threshold.
-func VPH_concern() {
-	var hs HistorySize
-	vpFreeHistory(&hs)
-	items := map[string]*item{}
-	hs.contents(nil).CollectItems(items)
-	vp_Assert(len(items) == len(vpItemTable), "contents() has exactly the documented items")
-	spec := vpItemTable[vpItemOrder[vp_Choice("item", vp_Param("nitems"))]]
-	it := items[spec.symbol]
-	vp_Assert(it != nil, "item exists: "+spec.symbol)
-	if it == nil {
-		return
-	}
-	// wiring: the item shows the documented field (table, JSON v2 and JSON v1 read the same cell)
-	v, overflow := it.value.ToUint64()
-	want := spec.value(&hs)
-	vp_Assert(v == want, "item displays its own field: "+spec.symbol)
-	cap := vpCap32
-	if spec.is64 {
-		cap = vpCap64
-	}
-	vp_Assert(overflow == (want == cap), "saturated iff the counter is at its capacity")
-	vp_Assert(it.scale > 0, "positive reference value")
-
-	t := Threshold(vp_F64("threshold"))
-	vp_Assume(t == t) // not NaN
-	marker, shown := it.levelOfConcern(t)
-	ratio := float64(v) / it.scale
-	vp_Assert(shown == (overflow || !(Threshold(ratio) < t)), "row shown iff saturated or value/reference >= threshold")
-	if shown {
-		if overflow || ratio > 30 {
-			vp_Assert(marker == vpBangs, "saturated or beyond 30: thirty exclamation marks")
-		} else {
-			n := len(marker)
-			vp_Assert(n <= 30, "at most 30 asterisks")
-			vp_Assert(vp_And(float64(n) <= ratio, ratio < float64(n)+1), "floor(value/reference) asterisks")
-		}
-	} else {
-		vp_Assert(marker == "", "no marker for a hidden row")
-	}
-	vp_Reach("end")
-}
-
-// VPH_concernMonotone: given the characterisation proved by VPH_concern
-// (shown <=> saturated or not(ratio < threshold)), raising the threshold only
-// removes rows and threshold 0 shows everything. ratio is any double the
-// division can produce (non-negative or NaN-free is not even needed for
-// monotonicity); thresholds are any non-NaN doubles.
-func VPH_concernMonotone() {
-	r := vp_F64("ratio")
-	t1, t2 := vp_F64("t1"), vp_F64("t2")
-	vp_Assume(t1 == t1)
-	vp_Assume(t2 == t2)
-	vp_Assume(t1 <= t2)
-	shown1 := !(r < t1)
-	shown2 := !(r < t2)
-	vp_Assert(vp_Imp(shown2, shown1), "raising the threshold only removes rows")
-	// threshold 0: a quotient of a non-negative value by a positive reference is never < 0
-	v := vp_U64("v")
-	var hs HistorySize
-	hs.UniqueBlobSize = counts.Count64(v)
-	hs.MaxParentCount = counts.Count32(uint32(v))
-	items := map[string]*item{}
-	hs.contents(nil).CollectItems(items)
-	for _, sym := range []string{"uniqueBlobSize", "maxCommitParentCount"} {
-		_, shown0 := items[sym].levelOfConcern(0)
-		vp_Assert(shown0, "--verbose (threshold 0) shows every metric: "+sym)
-	}
-	vp_Reach("end")
-}
-
 // VPH_json2: the JSON v2 rendering of one item carries the same measurement.
 func VPH_json2() {
 	var hs HistorySize
@@ -216,7 +142,10 @@ func VPH_table() {
 	if any {
 		vp_Assert(strings.Count(out, "| Name ") == 1, "one header")
 	}
-	if !vp_Native() {
+	if vp_Native() {
+		// the real Humaner ran: the saturated metric (and only it) is rendered as the infinity sign
+		vp_Assert(has("\u221e") == (lnk == 1<<32-1), "a saturated value is shown as the infinity sign, every other value as a numeral")
+	} else {
 		// each table value is the rendering of the exact measurement (the same cell JSON prints)
 		var wantR []uint64
 		if showPar {
